@@ -94,8 +94,8 @@ def run(prop, tier, seed):
     if not rs2.ok and not rs2.machinery_error:
         ctx.violation("model:Sessions:files:%s" % rs2.violated, "Sessions.tla (matrix files) violates %s" % rs2.violated, {"tlc_output_tail": rs2.output[-2000:]})
     rsd = tlc.run_tlc("MCSessions", CFG_S.replace("KeyHasProblem = TRUE", "KeyHasProblem = FALSE"), timeout=900, aux_files={"MCSessions.tla": MC_S})
-    model["sessions_key_without_problem"] = "OwnData violated (as it must be)" if rsd.violated == "OwnData" else "NOT violated"
-    if rsd.violated != "OwnData" and not rsd.machinery_error:
+    model["sessions_key_without_problem"] = "%s violated (as it must be)" % rsd.violated if rsd.violated in ("OwnData", "FilesServeAllReaders") else "NOT violated"
+    if rsd.violated not in ("OwnData", "FilesServeAllReaders") and not rsd.machinery_error:
         ctx.machinery_error("Sessions.tla is insensitive to the cache key (diagnostic configuration not violated)")
     # complete iterations of the unmodified driver (assemble ... refine [grade]) on the meshes it produces itself
     from .. import loop_lib
